@@ -105,9 +105,12 @@ class GlobalContext:
             func.trigger_start()
         self.triggers_delay_start = set()
 
-        for dm in self.dms_delay_start:
-            Function.hass.async_create_task(dm.start())
+        # a finalizer may drop a manager from the set while we iterate (see FunctionDecoratorManager); work on a copy
+        dms = list(self.dms_delay_start)
         self.dms_delay_start = set()
+        for dm in dms:
+            if getattr(dm, "status", None) is not DecoratorManagerStatus.STOPPED:
+                Function.hass.async_create_task(dm.start())
 
     def stop(self) -> None:
         """Stop all triggers and auto_start."""
